@@ -887,7 +887,12 @@ fn reference_phase_inner(sc: &Scenario, reverse: bool) -> RefPhase {
         if !seen2.insert(key.clone()) {
             continue;
         }
-        let fresh = template_clone(&sc.parsers[op.parser]);
+        // The second observation is made on a parser BUILT for it (45 us), not on a clone of the
+        // per-process template: clones may share state with each other through an `Arc` (a cache
+        // that `Clone` hands on), and then every "never-used" clone of this process is in fact
+        // used - the first pass and all later phases would agree on a result that depends on
+        // the history.
+        let fresh = build_parser(&sc.parsers[op.parser]);
         cooklang::verif_seam::reseed(crate::rng::mix2(sc.hash_seed ^ 0x2222, seen2.len() as u64));
         let o = perform(&fresh, &sc.inputs[op.input], &op, false, 0);
         let fp = match o.outcome {
@@ -904,6 +909,10 @@ fn reference_phase_inner(sc: &Scenario, reverse: bool) -> RefPhase {
     // Third pass with nobody listening to `tracing`: whether a subscriber is interested in the
     // library's spans and events is ambient state, not input.
     sim::set_trace(false);
+    // ... and in another process environment: every variable of the list (the usual ambient ones
+    // plus whatever looks like a variable name in the library's source) flips between set and
+    // unset. The worker is single-threaded here, so changing the environment is safe.
+    let flipped = flip_env();
     let mut seen3 = std::collections::BTreeSet::new();
     for op in third_pass {
         let key = full_key(sc, &op);
@@ -919,10 +928,25 @@ fn reference_phase_inner(sc: &Scenario, reverse: bool) -> RefPhase {
         };
         if let Some(first) = env.refs.get(&key) {
             if *first != fp {
-                sim::violation("ambient-dependence", &key, "reference", format!("the result differs depending on whether a tracing subscriber is interested in the library's spans/events: {}", first_diff(first, &fp)));
+                // which of the two ambient changes was it? once more with the subscriber back on
+                sim::set_trace(true);
+                let fresh = template_clone(&sc.parsers[op.parser]);
+                cooklang::verif_seam::reseed(crate::rng::mix2(sc.hash_seed ^ 0x3333, seen3.len() as u64));
+                let again = match perform(&fresh, &sc.inputs[op.input], &op, false, 0).outcome {
+                    Outcome::Done(s) => s,
+                    Outcome::Unwound => "UNWOUND-IN-REFERENCE".into(),
+                };
+                sim::set_trace(false);
+                let what = if again != *first {
+                    format!("on the process environment (flipped for this pass: {})", flipped.iter().map(|(k, _)| k.as_str()).collect::<Vec<_>>().join(" "))
+                } else {
+                    "on whether a tracing subscriber is interested in the library's spans/events".to_string()
+                };
+                sim::violation("ambient-dependence", &key, "reference", format!("the result depends {what}: {}", first_diff(first, &fp)));
             }
         }
     }
+    unflip_env(flipped);
     sim::set_trace(true);
     // Fourth pass: the same text at another address (a sub-slice 1..7 bytes into a buffer)
     let mut seen4 = std::collections::BTreeSet::new();
@@ -950,6 +974,36 @@ fn reference_phase_inner(sc: &Scenario, reverse: bool) -> RefPhase {
     RefPhase { env: Arc::new(env), violations, ref_keys }
 }
 
+
+/// Flip every variable of the ambient list: set ones are removed, unset ones are set to "1".
+/// Returns what to restore.
+#[allow(unused_unsafe)]
+fn flip_env() -> Vec<(String, Option<std::ffi::OsString>)> {
+    let mut saved = Vec::new();
+    for k in &crate::dict::get().env {
+        let old = std::env::var_os(k);
+        unsafe {
+            match &old {
+                Some(_) => std::env::remove_var(k),
+                None => std::env::set_var(k, "1"),
+            }
+        }
+        saved.push((k.clone(), old));
+    }
+    saved
+}
+
+#[allow(unused_unsafe)]
+fn unflip_env(saved: Vec<(String, Option<std::ffi::OsString>)>) {
+    for (k, old) in saved {
+        unsafe {
+            match old {
+                Some(v) => std::env::set_var(&k, v),
+                None => std::env::remove_var(&k),
+            }
+        }
+    }
+}
 
 /// Phase 3: faults have stopped; every key is re-observed sequentially on the shared (now used)
 /// parsers, on clones of them and on the worker's long-lived parser.
